@@ -26,18 +26,18 @@ type vfC04KV struct {
 
 type vfC04Case struct {
 	ValueSize int
-	Declared  int        // numItems passed to NewBuilderSized
-	Keys      [][]byte   // explicit keys (distinct unless DupOf >= 0)
-	BulkN     int        // additional derived keys: sha256(BulkSeed,i)[:BulkLen]
+	Declared  int      // numItems passed to NewBuilderSized
+	Keys      [][]byte // explicit keys (distinct unless DupOf >= 0)
+	BulkN     int      // additional derived keys: sha256(BulkSeed,i)[:BulkLen]
 	BulkSeed  uint64
 	BulkLen   int
-	ValSeed   uint64     // value_i = stretch(sha256(ValSeed,i))
-	DupOf     int        // >=0: key index duplicated at the end (unsupported)
-	DupDiff   bool       // the duplicate carries another value than the first insert (then a sealed index has lost one of the two)
-	PermSeed  uint64     // second insertion order
-	Meta      []vfC04KV  // metadata pairs (besides none)
+	ValSeed   uint64    // value_i = stretch(sha256(ValSeed,i))
+	DupOf     int       // >=0: key index duplicated at the end (unsupported)
+	DupDiff   bool      // the duplicate carries another value than the first insert (then a sealed index has lost one of the two)
+	PermSeed  uint64    // second insertion order
+	Meta      []vfC04KV // metadata pairs (besides none)
 	Shape     string
-	Collide   bool       // Keys ends with two keys of one bucket that collide in hash domain 0
+	Collide   bool // Keys ends with two keys of one bucket that collide in hash domain 0
 }
 
 func vfC04derive(seed uint64, i int, n int) []byte {
@@ -262,7 +262,7 @@ func vfC04eval(c *vfC04Case) (res vfC04Result, verr error) {
 	return res, nil
 }
 
-var vfC04Shapes = []string{"small", "small", "small", "onebucket-adversarial", "collide24", "dup", "longkeys", "bigvalue", "declared-low", "declared-high", "dup", "meta", "key64k", "val253", "emptykey"}
+var vfC04Shapes = []string{"small", "small", "small", "onebucket-adversarial", "collide24", "dup", "meta-max", "longkeys", "bigvalue", "declared-low", "declared-high", "dup", "meta", "key64k", "val253", "emptykey"}
 
 func vfC04gen(t *rapid.T, bulkOK bool) *vfC04Case {
 	c := &vfC04Case{DupOf: -1}
@@ -392,6 +392,13 @@ func vfC04gen(t *rapid.T, bulkOK bool) *vfC04Case {
 			vl := rapid.SampledFrom([]int{0, 1, 36, 255}).Draw(t, "mvl")
 			c.Meta = append(c.Meta, vfC04KV{K: vfC04derive(uint64(i), 1, kl), V: vfC04derive(uint64(i), 2, vl)})
 		}
+	case "meta-max":
+		// the largest metadata the builder accepts: 255 pairs with keys and values at / just below 255 bytes
+		kl := rapid.SampledFrom([]int{254, 255}).Draw(t, "mmkl")
+		vl := rapid.SampledFrom([]int{253, 254, 255}).Draw(t, "mmvl")
+		for i := 0; i < 255; i++ {
+			c.Meta = append(c.Meta, vfC04KV{K: vfC04derive(uint64(i), 1, kl), V: vfC04derive(uint64(i), 2, vl)})
+		}
 	case "key64k":
 		ln := rapid.SampledFrom([]int{65536, 65537, 70000, 131072 + 5}).Draw(t, "k64len")
 		pos := rapid.IntRange(0, len(c.Keys)-1).Draw(t, "k64pos")
@@ -462,7 +469,7 @@ func vfC04sample(c *vfC04Case, r vfC04Result) map[string]any {
 func TestVfC04Sized(t *testing.T) {
 	run := vfh.Begin("C04", "sized")
 	defer run.End(t)
-	run.Require("shape:small", "shape:onebucket-adversarial", "dup-in-bucket-of-two", "domain0-colliding-pair-alone-in-bucket", "shape:longkeys", "shape:dup", "shape:meta", "shape:key64k", "shape:val253", "multi-bucket", "error-path", "sealed")
+	run.Require("shape:small", "shape:onebucket-adversarial", "dup-in-bucket-of-two", "domain0-colliding-pair-alone-in-bucket", "shape:longkeys", "shape:dup", "shape:meta", "shape:meta-max", "shape:key64k", "shape:val253", "multi-bucket", "error-path", "sealed")
 	// regression tier: committed minimal cases of confirmed findings
 	for _, p := range vfh.ReplayFiles("C04", "sized") {
 		var c vfC04Case
